@@ -268,12 +268,12 @@ def run(res):
     rng = core.rng_for(res.seed, "c19")
     items = []
     for bm in (False, True):
-        n = (120000 if thorough else 12000) if not bm else (40000 if thorough else 5000)
+        n = (400000 if thorough else 50000) if not bm else (150000 if thorough else 20000)
         for _ in range(n):
             c = make_case(rng, bm)
             if c:
                 items.append(c + (bm,))
-        for t in bad_templates(rng, 20000 if thorough else 3000, bm):
+        for t in bad_templates(rng, 80000 if thorough else 10000, bm):
             # enough arguments of a harmless kind so that Python reaches the template error
             items.append((t, "auto", ["i:1"] * 6, [], bm))
     parts = core.pmap(_work, tw.batches(items, 4000), init=tw.init_state, initargs=({VARIANT: bins[VARIANT]},))
